@@ -260,6 +260,8 @@ def gen_inject(rng):
         pm = rng.choice([50, 200])
         length = 60000
         delay = rng.choice([2, 10])
+        return [seed, pm, mask, start, length, n_bidi, total, delay, rng.choice([0, 0, 20, 80]), rng.choice([0, 0, 10, 40]),
+                n_uni, rng.choice([1000, 20000]), rng.choice([0, 500, 10000])]
     return [seed, pm, mask, start, length, n_bidi, total, delay, rng.choice([0, 0, 20, 80]), rng.choice([0, 0, 10, 40]),
             n_uni, rng.choice([100, 1000, 20000]), rng.choice([0, 500, 10000])]
 
@@ -275,7 +277,10 @@ def fixed_inject(tier):
 
 
 def valid_inject(c):
-    return len(c) == INJ_LEN and all(v >= 0 for v in c) and 1 <= c[5] <= 4 and c[10] <= 2 and c[8] <= 80 and c[6] <= 4000000 and c[4] <= 60000
+    # the last two conditions keep shrink candidates cheap: no multi-megabyte upload in 1-byte writes or reads
+    return (len(c) == INJ_LEN and all(v >= 0 for v in c) and 1 <= c[5] <= 4 and c[10] <= 2 and c[8] <= 80
+            and c[6] <= 4000000 and c[4] <= 60000
+            and c[6] <= 20000 * max(1, c[11]) and (c[12] == 0 or c[6] <= 20000 * c[12]))
 
 
 def nontrivial_inject(case, out):
@@ -341,8 +346,14 @@ def nontrivial_pn(case, out):
     return len(out) > 7 and out[2] == 1 and out[6] > 50
 
 
-def _pn_check(v, extra_us):
+def _pn_check(v, extra_us, evict=False):
     """python mirror of the e2e_pn monitor; extra_us(srtt, cwnd) is added to max_ack_delay + 5 ms.
+    evict=True additionally (a) waives an obligation when the first ACK frame sent after it carries the
+    maximum of 10 ranges, all above the packet number (RFC 9000 13.2.3: the receiver limits the
+    ranges it keeps; while ACKs are held back by the pacer the oldest range falls out) and (b) lets an
+    obligation run up to 2 s as long as the endpoint has sent no packet at all since it processed the
+    packet - the signature of transmission being held back as a whole (pacing), as opposed to
+    packets leaving without the ACK.
     returns (incr_ok, ranges_ok, timely_ok)"""
     endt, mad = v[3], v[4]
     rows = [v[7 + 8 * i:13 + 8 * i] for i in range(v[6])]
@@ -359,22 +370,35 @@ def _pn_check(v, extra_us):
                 elif r[:3] == [2, ep, sp]:
                     ranges_ok &= r[3] <= r[4] and all(x in proc for x in range(r[3], r[4] + 1))
         pend, largest, srtt, cwnd, closed = [], -1, 333000, 12000, False
+        frame = []   # ranges of the ACK frame being read
         for r in rows:
-            if any(r[5] > d for (_, d) in pend):
+            if frame and r[:3] != [2, ep, 2]:
+                if evict and len(frame) >= 10:
+                    lo = min(a for a, _ in frame)
+                    pend = [q for q in pend if not q[0] < lo]
+                frame = []
+            if evict:
+                overdue = [q for q in pend if r[5] > q[1] and (q[2] or r[5] > q[3] + 2000000)]
+            else:
+                overdue = [q for q in pend if r[5] > q[1]]
+            if overdue:
                 timely_ok = False
-                pend = [q for q in pend if r[5] <= q[1]]
+                pend = [q for q in pend if q not in overdue]
+            if r[:2] == [0, ep]:
+                pend = [(q[0], q[1], True, q[3]) for q in pend]
             if r[0] == 4 and r[1] == ep:
                 closed = True
                 break
             if r[0] == 5 and r[1] == ep:
                 cwnd, srtt = max(1, r[3]), r[4]
             if r[:3] == [2, ep, 2]:
+                frame.append((r[3], r[4]))
                 pend = [q for q in pend if not (r[3] <= q[0] <= r[4])]
             if r[:3] == [1, ep, 2]:
                 if r[4] == 1 and largest < r[3]:
-                    pend.append((r[3], r[5] + mad + 5000 + extra_us(srtt, cwnd)))
+                    pend.append((r[3], r[5] + mad + 5000 + extra_us(srtt, cwnd), False, r[5]))
                 largest = max(largest, r[3])
-        if not closed and any(endt > d for (_, d) in pend):
+        if not closed and any(endt > q[1] and (not evict or q[2] or endt > q[3] + 2000000) for q in pend):
             timely_ok = False
     return incr_ok, ranges_ok, timely_ok
 
@@ -385,7 +409,8 @@ def classify_pn(p):
         if p.get("component") != "e2e_pn":
             return None
         c, o = p["case"], p["impl"]
-        if o.startswith("!panic Initial ID") and "was already in the map" in o and len(c) > 1 and c[1] >= 1:
+        # (a panicking case ends the harness process: the line then reads "!crash rc=3 panic in e2e_pn: ...")
+        if o.startswith("!") and "Initial ID" in o and "was already in the map" in o and len(c) > 1 and c[1] >= 1:
             return "initial_id_already_in_map_after_retry"
         if o.startswith("!"):
             return None
@@ -393,7 +418,7 @@ def classify_pn(p):
         strict = _pn_check(v, lambda srtt, cwnd: 0)
         # the pacer's interval is MAX_BURST_PACKETS (10) datagrams at 1.25..2 x cwnd / srtt: up to
         # 10 * mds * srtt / cwnd; twice that (the values move while the packet waits), at least 50 ms
-        loose = _pn_check(v, lambda srtt, cwnd: max(50000, 2 * 15000 * srtt // cwnd))
+        loose = _pn_check(v, lambda srtt, cwnd: max(50000, 2 * 15000 * srtt // cwnd), evict=True)
         if strict[0] and strict[1] and not strict[2] and loose[2]:
             return "ack_only_packets_paced"
         return None
